@@ -232,8 +232,8 @@ def r5(repo, run):
     for q in ('ConfigNode._replace_self', 'ConfigNode._replace_other'):
         fi = repo.func(q)
         calls = set()
-        for ap in (False, True):
-            me, ot = node_obj('self'), node_obj('other')
+        for ap, pa, pb in [(ap_, a_, b_) for ap_ in (False, True) for a_ in PRIOS for b_ in PRIOS]:
+            me, ot = node_obj('self', _priority=pa, _delete=True, _safe=None), node_obj('other', _priority=pb, _delete=False, _safe=False)
             f = FDE(repo, stubs={'_maybe_promote', '_propagate_implicit_values', '_propagate_priority', 'clear', 'update', 'extend'})
             r = fde_guard(lambda: f.call(fi, me, ot, allow_promotions=ap))
             calls |= {e[1] for e in r.effects if e[0] == 'call'}
